@@ -491,6 +491,9 @@ class Run:
         if outcome[0] == "unbounded" and not extra_fault:
             self.violation("unbounded", spec.name, f"{where}: {outcome[1]}")
         nfr = spec.n_frames()
+        if outcome[0] == "ret" and isinstance(outcome[1], (bytes, bytearray)):
+            # a read whose length the device decides (key store): the frames actually needed for what came back
+            nfr = max(nfr, 12 + _frames(len(outcome[1]), min(spec.host_mp(), core.max_packet)) * 3)
         budget = nfr * 2 * s.timeout_us + nfr * int(plan_knob(s, "slow_us")) + slept + 1_000_000
         if dt > budget and not extra_fault:
             self.violation("unbounded-time", spec.name, f"{where}: took {dt} us of simulated time, budget {budget}")
